@@ -303,7 +303,7 @@ def f32v(v):
 
 def spec_json(j, v, s, named, wut=True, convert=True):
     """j (a json.loads result) is a specification JSON encoding of datum v under schema s, for SOME conforming branch.
-    convert=False: numbers written as given instead of as the value of the schema type (classification only)."""
+    convert=False: a number may also be written as given instead of as the value of the schema type (classification only)."""
     s = resolve(s, named)
     if isinstance(s, list):
         for b in s:
@@ -328,9 +328,9 @@ def spec_json(j, v, s, named, wut=True, convert=True):
     if t in ("int", "long"):
         return type(j) is int and type(v) is int and j == v
     if t == "float":
-        return is_num(j) and is_num(v) and j == (f32v(v) if convert else v)
+        return is_num(j) and is_num(v) and (j == f32v(v) or (not convert and j == v))
     if t == "double":
-        return is_num(j) and is_num(v) and j == (float(v) if convert else v)
+        return is_num(j) and is_num(v) and (j == float(v) or (not convert and j == v))
     if t in ("bytes", "fixed"):
         return isinstance(j, str) and isinstance(v, (bytes, bytearray)) and j == bytes(v).decode("iso-8859-1")
     if t == "string":
@@ -612,16 +612,26 @@ def doc_empty_key_leaf(doc):
     return False
 
 
-# feature -> (site it shows at, symptoms it explains); a symptom outside the set is a DIFFERENT defect ("other")
+# (feature, sites it shows at, symptoms it explains, symptom label in the signature).  A symptom outside the set is a
+# DIFFERENT defect and is reported as `other`.
 FEATURES = [
-    ("recursive-type-other-than-direct-self-union", ("json_writer", "json_reader"), {"RecursionError"}),
-    ("record-type-parsed-again-self-typed-field-forced-null", ("json_writer",), {"IndexError", "InternalParserException"}),
-    ("record-type-parsed-again-self-typed-field-forced-null", ("json_reader",), {"ValueError", "InternalParserException"}),
-    ("fieldless-record-in-tail-position", ("json_writer",), {"InternalParserException"}),
-    ("empty-string-map-key-with-leaf-value", ("json_writer",), {"NoKeyWasSet"}),
-    ("map-value-ends-in-nested-record", ("json_reader",), {"KeyError", "ValueError"}),
-    ("number-not-converted-to-schema-type", ("json_writer",), {"text-is-not-the-spec-encoding"}),
+    ("recursive-type-other-than-direct-self-union", ("json_writer", "json_reader"), {"RecursionError"}, "RecursionError"),
+    ("record-type-parsed-again-self-typed-field-forced-null", ("json_writer",), {"IndexError", "InternalParserException"}, "raises"),
+    ("record-type-parsed-again-self-typed-field-forced-null", ("json_reader",), {"ValueError", "InternalParserException"}, "raises"),
+    ("fieldless-record-in-tail-position", ("json_writer",), {"InternalParserException"}, "InternalParserException"),
+    ("empty-string-map-key-with-leaf-value", ("json_writer",), {"NoKeyWasSet"}, "NoKeyWasSet"),
+    ("map-value-ends-in-nested-record", ("json_reader",),
+     {"KeyError", "ValueError", "records-differ-from-written", "differs-from-binary-decoding"}, "raises-or-wrong-records"),
+    ("number-not-converted-to-schema-type", ("json_writer",), {"text-is-not-the-spec-encoding"}, "text-is-not-the-spec-encoding"),
 ]
+
+
+def safe(pred, *a):
+    """predicates over-approximate union branches and can chase an endless chain of defaults ({} for a self-referential record)"""
+    try:
+        return pred(*a)
+    except RecursionError:
+        return False
 
 
 def features_of(c, recs=None, docs=None):
@@ -632,15 +642,15 @@ def features_of(c, recs=None, docs=None):
         g = grammar(c.parsed, c.named)
     except NonTerminating:
         return {"recursive-type-other-than-direct-self-union"}       # nothing else is reachable: configure() fails
-    if any(hits_forced(g, r, c.named) for r in recs):
+    if any(safe(hits_forced, g, r, c.named) for r in recs):
         out.add("record-type-parsed-again-self-typed-field-forced-null")
-    if recs and tail_is_fieldless(c.parsed, recs[-1], c.named):
+    if recs and safe(tail_is_fieldless, c.parsed, recs[-1], c.named):
         out.add("fieldless-record-in-tail-position")
     if docs is not None and any(doc_empty_key_leaf(d) for d in docs):
         out.add("empty-string-map-key-with-leaf-value")
-    if any(map_value_ends_in_nested_record(c.parsed, r, c.named) for r in recs):
+    if any(safe(map_value_ends_in_nested_record, c.parsed, r, c.named) for r in recs):
         out.add("map-value-ends-in-nested-record")
-    if any(leaf_feature(c.parsed, r, c.named, p_unconverted) for r in recs):
+    if any(safe(leaf_feature, c.parsed, r, c.named, p_unconverted) for r in recs):
         out.add("number-not-converted-to-schema-type")
     return out
 
@@ -649,10 +659,10 @@ def classify(c, site, symptom, docs=None):
     """signature = C15:<site>:<feature>:<symptom>; the feature is the first named predicate that holds of the case and explains
     the symptom, else `other` (so that a different defect on an input of a known class is not swallowed)"""
     fs = features_of(c, docs=docs)
-    for name, sites, symptoms in FEATURES:
+    for name, sites, symptoms, lab in FEATURES:
         if name in fs and site in sites and symptom in symptoms:
             where = "parser" if name.startswith("recursive-type") else site
-            return "C15:%s:%s:%s" % (where, name, symptom)
+            return "C15:%s:%s:%s" % (where, name, lab)
     return "C15:%s:other:%s" % (site, symptom)
 
 
